@@ -40,6 +40,12 @@ def bias(cfg, prop, t):
     elif prop == "C15":
         cfg["n"] = t.weighted([(1, 2), (2, 2), (3, 2), (4, 2)])
         cfg["p_loop"] = t.choice([0.2, 0.4])
+    if prop in ("C15", "C08") and t.chance(0.05):
+        # registers an outcome of which no longer fits one byte (few gates: the emulator
+        # spends 2^n interpreted steps per gate)
+        cfg["n"] = t.choice([8, 9, 9, 10])
+        cfg["budget"] = min(cfg["budget"], 6)
+        cfg["p_macros"] = 0.0
     return cfg
 
 
@@ -722,6 +728,19 @@ def execute(plan):
         else:
             r1, r2 = oj["value"]
             check_views(viol, "job-2nd-execute", r2, n, simulated=True, single_execution=False)
+            # C08 on the re-executed job: one readout per visit, in order, for this
+            # execution too, and every subcircuit's tallies count exactly its own readouts
+            seq2 = [r.subcircuit.index for r in r2.readouts]
+            if seq2 != list(M.visits):
+                viol.add("C08", "visit_sequence", "mismatch", "job-2nd-execute", "got %r want %r" % (seq2[:20], list(M.visits)[:20]))
+            for i, sc in enumerate(r2.subcircuits):
+                want = np.zeros(2**n)
+                for r in sc.readouts:
+                    want[r.as_int] += 1
+                rf = np.asarray(sc.relative_frequency_by_int)
+                if rf.shape != want.shape or np.abs(rf - want).max() > 0:
+                    viol.add("C08", "relative_frequency", "mismatch", "job-2nd-execute", "subcircuit %d: tallies %r, its readouts count %r" % (i, rf.tolist()[:8], want.tolist()[:8]))
+                    break
             log.append(("job2", hexdigest([[int(r.as_int) for r in sc.readouts] for sc in r2.subcircuits])))
 
     # --- written branch order must not matter (C03)
